@@ -21,6 +21,8 @@ func init() {
 			{ID: "C06.R3", Floor: 3, Run: c06r3, Text: "shrink ⇒ zero: every store that does not increase archetype.len lies on paths that also run a zeroing primitive over the table's columns (typed SetZero of every buffer, or the zero-copy over every column of the vacated row); fresh tables (buffers allocated in the same function) are exempt"},
 			{ID: "C06.R5", Floor: 2, Run: c05r8, Text: "children of a dead target can still be moved (= C05.R8): the dead-target panic is never applied to a target inherited from an existing table"},
 			{ID: "C06.R4", Floor: 10, Run: c06r4, Text: "target flag: every function that allocates rows in a table obtained for a (non-constant) target sets targetEntities[target.id] under !target.IsZero(); every function that recycles an entity tests the flag, cleans up the entity's tables and clears it; creation clears the flag of the issued id"},
+			{ID: "C06.R6", Floor: 1, Run: c16r7, Text: "layout extension reaches retired tables too (= C16.R7): a retired table is re-used without re-initialisation, so it must not be skipped when layout arrays grow"},
+			{ID: "C06.R7", Floor: 1, Run: c05r11, Text: "target map ⇄ table target (= C05.R11): a re-used table is registered under the target it was activated with"},
 		},
 	})
 }
